@@ -94,11 +94,13 @@ func (ts *TriangleSource) Sample() error {
 func (ts *TriangleSource) StartRun() error {
 	go func() {
 		for {
+			vpoint("Producer.loop")
 			nextread := ts.lastread.Add(ts.timeperbuf)
 			waittime := time.Until(nextread)
 			var now time.Time
 			select {
 			case <-ts.abortSelf:
+				vpoint("Producer.abort")
 				close(ts.nextBlock)
 				return
 			case <-time.After(waittime):
@@ -128,6 +130,7 @@ func (ts *TriangleSource) StartRun() error {
 				block.segments[channelIndex] = seg
 			}
 			ts.nextFrameNum += FrameIndex(ts.cycleLen)
+			vpoint("Producer.send")
 			ts.nextBlock <- block
 		}
 	}()
@@ -309,6 +312,7 @@ func (es *ErroringSource) StartRun() error {
 	go func() {
 		block := new(dataBlock)
 		block.err = fmt.Errorf("ErroringSource always errors on first call")
+		vpoint("Producer.senderr")
 		es.nextBlock <- block
 	}()
 	return nil
